@@ -116,6 +116,10 @@ pub struct Resolver<'ast, 'res> {
     // variables, whose types must not be mistaken for theirs.
     inference_shadow: Vec<&'ast str, &'res Arena>,
 
+    // Same for functions defined inside that function: a call of such a name must not
+    // take the return type of a same-named function of an enclosing block.
+    inference_shadow_fns: Vec<&'ast str, &'res Arena>,
+
     /// Collection of semantic errors found during analysis
     pub errors: Diagnostics<'res>,
 
@@ -144,6 +148,7 @@ impl<'ast, 'res> Resolver<'ast, 'res> {
             scope_stack: Vec::new_in(arena),
             current_stmt: None,
             inference_shadow: Vec::new_in(arena),
+            inference_shadow_fns: Vec::new_in(arena),
             errors: Diagnostics::new(arena),
             facts: ProgramFacts::new(facts_arena),
             optimization_plan: None,
@@ -566,10 +571,16 @@ impl<'ast, 'res> Resolver<'ast, 'res> {
             let mut changed = false;
             for pending_def in &pending {
                 self.inference_shadow.clear();
+                self.inference_shadow_fns.clear();
                 self.inference_shadow.extend(pending_def.params.params.iter().copied());
-                Self::collect_declared_names(pending_def.body, &mut self.inference_shadow);
+                Self::collect_declared_names(
+                    pending_def.body,
+                    &mut self.inference_shadow,
+                    &mut self.inference_shadow_fns,
+                );
                 let return_type = self.infer_function_return_type(pending_def.body);
                 self.inference_shadow.clear();
+                self.inference_shadow_fns.clear();
                 let current_scope = self
                     .function_scopes
                     .last_mut()
@@ -1278,6 +1289,8 @@ impl<'ast, 'res> Resolver<'ast, 'res> {
                 Expr::Var(func_name, ..) => {
                     if let Some(builtin) = GlobalBuiltin::from_name(func_name) {
                         Some(builtin.return_type())
+                    } else if self.inference_shadow_fns.iter().any(|name| name == func_name) {
+                        Some(ValueType::Dynamic)
                     } else {
                         self.lookup_func(func_name).map(|func_sig| func_sig.return_type)
                     }
@@ -1327,20 +1340,25 @@ impl<'ast, 'res> Resolver<'ast, 'res> {
         if return_types.iter().all(|t| *t == first_type) { first_type } else { ValueType::Dynamic }
     }
 
-    /// Names declared by `make` in a function body, nested blocks included,
-    /// nested function bodies excluded.
-    fn collect_declared_names(block: BlockRef<'ast>, names: &mut Vec<&'ast str, &'res Arena>) {
+    /// Names declared by `make` and functions defined in a function body, nested
+    /// blocks included, nested function bodies excluded.
+    fn collect_declared_names(
+        block: BlockRef<'ast>,
+        names: &mut Vec<&'ast str, &'res Arena>,
+        functions: &mut Vec<&'ast str, &'res Arena>,
+    ) {
         for stmt in block.stmts {
             match stmt {
                 Stmt::Assign { var, .. } => names.push(var),
+                Stmt::FunctionDef { name, .. } => functions.push(name),
                 Stmt::If { then_b, else_b, .. } => {
-                    Self::collect_declared_names(then_b, names);
+                    Self::collect_declared_names(then_b, names, functions);
                     if let Some(eb) = else_b {
-                        Self::collect_declared_names(eb, names);
+                        Self::collect_declared_names(eb, names, functions);
                     }
                 }
-                Stmt::Loop { body, .. } => Self::collect_declared_names(body, names),
-                Stmt::Block { block, .. } => Self::collect_declared_names(block, names),
+                Stmt::Loop { body, .. } => Self::collect_declared_names(body, names, functions),
+                Stmt::Block { block, .. } => Self::collect_declared_names(block, names, functions),
                 _ => {}
             }
         }
